@@ -28,6 +28,7 @@ Record case := mkcase {
   c_code : option str;             (* None = the default argument of to_nifti *)
   c_exact : bool;                  (* every float operation of the implementation is exact on this input *)
   c_faffs : list mat;              (* observed single-file NIfTI affines (from_dicom_wrapper), parallel to c_files *)
+  c_rescale : list rescale;        (* stored pixels and scale factors of every file, parallel to c_files *)
   c_obs : obs
 }.
 
@@ -71,6 +72,13 @@ Definition contract_ok (exact : bool) (g : gfile) (A : mat) : bool :=
   mat_close exact (file_affine g) A &&
   q_close false (this (f_pos (g_file g))) (slice_indicator g).
 
+Fixpoint rescales_ok (gs : list gfile) (rs : list rescale) : bool :=
+  match gs, rs with
+  | [], [] => true
+  | g :: gr, r :: rr => rescaled_ok g r && rescales_ok gr rr
+  | _, _ => false
+  end.
+
 Fixpoint contracts_ok (exact : bool) (gs : list gfile) (As : list mat) : bool :=
   match gs, As with
   | [], [] => true
@@ -89,7 +97,7 @@ Definition check_state (c : case) (st' : state) : bool :=
 
 (** values + geometry (C02); the file order left behind by the call is compared in [check_hdr] *)
 Definition check_geom (c : case) : bool :=
-  contracts_ok (c_exact c) (c_files c) (c_faffs c) &&
+  contracts_ok (c_exact c) (c_files c) (c_faffs c) && rescales_ok (c_files c) (c_rescale c) &&
   match model c with
   | (Err _, _) => false                                   (* every add of a case succeeds *)
   | (Ok _, (st', r)) =>
